@@ -21,6 +21,9 @@ enum Want {
     Join(usize),
     /// waits on condition variable `key` for a notification later than sequence number `seq`
     Cond(usize, u64),
+    /// spinning: has read the same value from the atomic at `addr` twice in a row; not offered until
+    /// that atomic is written (or nobody else can run)
+    AtomicChange(usize, u64),
     Finished,
     NotStarted,
     /// not started, and not to be started before this event is set
@@ -44,6 +47,10 @@ struct State {
     holders: HashMap<usize, usize>,
     /// notifications seen per condition variable
     cond_seq: HashMap<usize, u64>,
+    /// writes seen per instrumented atomic
+    write_seq: HashMap<usize, u64>,
+    /// per thread: the last instrumented read (address, value, position in the trace)
+    last_read: Vec<Option<(usize, u64, usize)>>,
     events: Vec<bool>,
     prefix: Vec<usize>,
     trace: Vec<Step>,
@@ -62,6 +69,8 @@ static CTL: Mutex<Option<State>> = Mutex::new(None);
 /// enabled there falls back to the default policy instead of stopping the process
 pub static LENIENT_REPLAY: std::sync::atomic::AtomicBool = std::sync::atomic::AtomicBool::new(false);
 static CV: Condvar = Condvar::new();
+const SPIN_WINDOW: usize = 48;
+const MAX_STEPS: usize = 400_000;
 
 fn wake(st: &State, t: usize) {
     if let Some(Some(h)) = st.handles.get(t) {
@@ -116,10 +125,19 @@ fn enabled_of(st: &State) -> Vec<usize> {
             Want::Event(e) => st.events[*e],
             Want::Join(t) => st.want[*t] == Want::Finished,
             Want::Cond(k, seq) => st.cond_seq.get(k).copied().unwrap_or(0) > *seq,
+            Want::AtomicChange(a, seq) => st.write_seq.get(a).copied().unwrap_or(0) > *seq,
             Want::Finished => false,
         };
         if ok {
             v.push(i);
+        }
+    }
+    if v.is_empty() {
+        // nobody can make progress: the spinners get to look again (a real livelock ends at MAX_STEPS)
+        for (i, w) in st.want.iter().enumerate() {
+            if matches!(w, Want::AtomicChange(..)) {
+                v.push(i);
+            }
         }
     }
     v
@@ -130,7 +148,7 @@ fn choose(st: &mut State, at: usize, label: &'static str) {
     let enabled = enabled_of(st);
     // a thread that has to wait for another one (on a mutex or on a condition variable): the
     // executions in which the guard protocol really makes somebody wait
-    if let Some(Want::Lock(_) | Want::Cond(..)) = st.want.get(at) {
+    if let Some(Want::Lock(_) | Want::Cond(..) | Want::AtomicChange(..)) = st.want.get(at) {
         if !enabled.contains(&at) {
             st.blocked_lock_seen = true;
         }
@@ -148,6 +166,26 @@ fn choose(st: &mut State, at: usize, label: &'static str) {
         return;
     }
     let pos = st.trace.len();
+    // Waiting made visible: a thread that has just executed SPIN_WINDOW consecutive atomic operations
+    // without anybody else running is taken to be spinning on a flag (a hand-written spin lock, a
+    // retry-until-success loop).  Like a thread that called `yield`, it is not offered at this
+    // point if another thread can run, and the switch away from it is not a preemption.  Without
+    // this a stateless explorer would unroll the loop forever under its default policy.
+    let mut enabled = enabled;
+    if at != NONE && enabled.len() > 1 && enabled.contains(&at) && label.contains("Atomic") && pos >= SPIN_WINDOW {
+        let spinning = st.trace[pos - SPIN_WINDOW..].iter().all(|s| s.at == at && s.chosen == at && s.label.contains("Atomic"));
+        if spinning {
+            enabled.retain(|t| *t != at);
+        }
+    }
+    if pos > MAX_STEPS {
+        // only spinners left, forever: livelock (reported like a deadlock)
+        st.deadlock = true;
+        st.current = NONE;
+        st.active = false;
+        wake_explorer(st);
+        return;
+    }
     let at_enabled = at != NONE && enabled.contains(&at);
     let chosen = if pos < st.prefix.len() {
         let c = st.prefix[pos];
@@ -277,6 +315,52 @@ pub fn cond_block(key: usize, seq: u64) {
     point_with(Want::Cond(key, seq), "condvar.wait")
 }
 
+/// An instrumented atomic was written.
+pub fn note_write(addr: usize) {
+    if tid() == NONE {
+        return;
+    }
+    let mut g = CTL.lock().unwrap_or_else(|p| p.into_inner());
+    if let Some(st) = g.as_mut() {
+        *st.write_seq.entry(addr).or_insert(0) += 1;
+        let me = tid();
+        if st.last_read.len() <= me {
+            st.last_read.resize(me + 1, None);
+        }
+        st.last_read[me] = None;
+    }
+}
+
+/// An instrumented atomic was read (a load, or a compare-exchange that failed) and gave `value`.
+/// Reading the same value from the same atomic twice in a row, with nobody else running in
+/// between, is a spin-wait: the thread is set aside until that atomic is written.
+pub fn note_read(addr: usize, value: u64) {
+    let me = tid();
+    if me == NONE {
+        return;
+    }
+    let wait_seq = {
+        let mut g = CTL.lock().unwrap_or_else(|p| p.into_inner());
+        let st = match g.as_mut() {
+            Some(st) => st,
+            None => return,
+        };
+        if st.last_read.len() <= me {
+            st.last_read.resize(me + 1, None);
+        }
+        let pos = st.trace.len();
+        let again = match st.last_read[me] {
+            Some((a, v, p)) => a == addr && v == value && st.trace[p.min(pos)..].iter().all(|s| s.chosen == me),
+            None => false,
+        };
+        st.last_read[me] = Some((addr, value, pos));
+        if again { Some(st.write_seq.get(&addr).copied().unwrap_or(0)) } else { None }
+    };
+    if let Some(seq) = wait_seq {
+        point_with(Want::AtomicChange(addr, seq), "spin.wait");
+    }
+}
+
 pub fn cond_notify(key: usize) {
     {
         let mut g = CTL.lock().unwrap_or_else(|p| p.into_inner());
@@ -344,6 +428,8 @@ pub fn execute(bodies: Vec<Box<dyn FnOnce() + Send>>, prefix: &[usize], events: 
             }).collect(),
             holders: HashMap::new(),
             cond_seq: HashMap::new(),
+            write_seq: HashMap::new(),
+            last_read: Vec::new(),
             events: vec![false; events],
             prefix: prefix.to_vec(),
             trace: Vec::new(),
@@ -396,6 +482,7 @@ pub fn execute(bodies: Vec<Box<dyn FnOnce() + Send>>, prefix: &[usize], events: 
         std::thread::park();
     }
     // wait for the end (or a deadlock)
+    let t_wait = std::time::Instant::now();
     let deadlock;
     loop {
         {
@@ -405,8 +492,21 @@ pub fn execute(bodies: Vec<Box<dyn FnOnce() + Send>>, prefix: &[usize], events: 
                 deadlock = st.deadlock;
                 break;
             }
+            if std::env::var_os("VSCHED_DEBUG").is_some() && t_wait.elapsed().as_secs() > 5 {
+                eprintln!("vsched stuck: current={} want={:?} holders={:?} trace_len={} last={:?}", st.current, st.want, st.holders, st.trace.len(), st.trace.iter().rev().take(6).map(|s| (s.at, s.label, s.chosen, s.enabled.clone())).collect::<Vec<_>>());
+                std::process::exit(3);
+            }
         }
-        std::thread::park();
+        std::thread::park_timeout(std::time::Duration::from_secs(1));
+    }
+    if std::env::var_os("VSCHED_DEBUG").is_some() {
+        let g = CTL.lock().unwrap_or_else(|p| p.into_inner());
+        let st = g.as_ref().unwrap();
+        static NEXEC: std::sync::atomic::AtomicU64 = std::sync::atomic::AtomicU64::new(0);
+        let k = NEXEC.fetch_add(1, std::sync::atomic::Ordering::Relaxed);
+        if k % 200 == 0 || st.trace.len() > 3000 {
+            eprintln!("vsched exec #{k}: steps={} prefix={} deadlock={} labels_tail={:?}", st.trace.len(), st.prefix.len(), st.deadlock, st.trace.iter().rev().take(5).map(|s| (s.at, s.label)).collect::<Vec<_>>());
+        }
     }
     let mut unfinished = Vec::new();
     if deadlock {
@@ -444,11 +544,21 @@ pub struct ExploreStats {
 /// Depth-first exploration of all schedules with at most `bound` preemptions.  `run(prefix)`
 /// executes once and returns the execution; `check(&Execution, &[usize] schedule)` returns false
 /// to stop (violation).  `cap`: maximum number of schedules (0 = none).
-pub fn explore(bound: usize, cap: u64, mut run: impl FnMut(&[usize]) -> Execution, mut check: impl FnMut(&Execution, &[usize]) -> bool) -> ExploreStats {
+pub fn explore(bound: usize, cap: u64, run: impl FnMut(&[usize]) -> Execution, check: impl FnMut(&Execution, &[usize]) -> bool) -> ExploreStats {
+    explore_until(bound, cap, None, run, check)
+}
+
+/// As [`explore`], additionally stopping (reported as capped) at a wall-clock deadline; at least one
+/// schedule is always executed.
+pub fn explore_until(bound: usize, cap: u64, deadline: Option<std::time::Instant>, mut run: impl FnMut(&[usize]) -> Execution, mut check: impl FnMut(&Execution, &[usize]) -> bool) -> ExploreStats {
     let mut stats = ExploreStats { schedules: 0, steps: 0, max_preemptions_used: 0, blocked_lock_schedules: 0, capped: false };
     let mut stack: Vec<Vec<usize>> = vec![Vec::new()];
     while let Some(prefix) = stack.pop() {
         if cap != 0 && stats.schedules >= cap {
+            stats.capped = true;
+            break;
+        }
+        if stats.schedules > 0 && deadline.map(|d| std::time::Instant::now() > d).unwrap_or(false) {
             stats.capped = true;
             break;
         }
